@@ -844,4 +844,134 @@ theorem specRun_eq_last (v : Variant) (mc : Bool) (p : Prefix) (m : Mui) (h : Hi
             exact h2.1 _ hA hW
         · simp [hm]
 
+/-! ### Session-level events (C02 / C03) -/
+
+theorem specEv_untouched (v : Variant) (mc : Bool) (p : Prefix) (m : Mui) (s : Abs) (e : Ev)
+    (h : e.touches mc p m = false) : specEv v mc p m s e = s := by
+  cases e with
+  | upd m' u =>
+    cases u with
+    | malformed => simp only [specEv, specUpd]; by_cases hm : m' = m <;> simp [hm]
+    | ok a ann wd =>
+      simp only [specEv]
+      by_cases hm : m' = m
+      · simp only [Ev.touches, Ev.downs, hm, decide_true, Bool.true_and, Bool.false_or, Bool.or_eq_false_iff,
+          List.contains_eq_mem, decide_eq_false_iff_not] at h
+        simp [hm, specUpd, h.1, h.2]
+      · simp [hm]
+  | down m' =>
+    simp only [Ev.touches, Ev.downs, Bool.or_false, decide_eq_false_iff_not] at h
+    simp [specEv, h]
+  | downBulk ms =>
+    simp only [Ev.touches, Ev.downs, Bool.or_false, List.contains_eq_mem, decide_eq_false_iff_not] at h
+    simp [specEv, h]
+
+theorem foldl_untouched (v : Variant) (mc : Bool) (p : Prefix) (m : Mui) (h : History)
+    (hu : h.all (fun e => !(e.touches mc p m)) = true) (s : Abs) :
+    h.foldl (specEv v mc p m) s = s := by
+  induction h generalizing s with
+  | nil => rfl
+  | cons e h ih =>
+    simp only [List.all_cons, Bool.and_eq_true, Bool.not_eq_true'] at hu
+    rw [List.foldl_cons, specEv_untouched v mc p m s e hu.1, ih hu.2]
+
+/-- As written, the global marker of a source is set by its first session-level withdrawal and
+    never cleared: after any history it is set iff such an event occurred. -/
+theorem down_asWritten (mc : Bool) (p : Prefix) (m : Mui) (h : History) (s : Abs) :
+    (h.foldl (specEv asWritten mc p m) s).down = (s.down || h.any (Ev.downs m)) := by
+  induction h generalizing s with
+  | nil => simp
+  | cons e h ih =>
+    rw [List.foldl_cons, ih, List.any_cons]
+    cases e with
+    | upd m' u => simp only [specEv, Ev.downs]; by_cases hm : m' = m <;> simp [hm]
+    | down m' =>
+      simp only [specEv, specDown, asWritten, Ev.downs]
+      by_cases hm : m' = m <;> simp [hm]
+    | downBulk ms =>
+      simp only [specEv, specDown, asWritten, Ev.downs, List.contains_eq_mem]
+      by_cases hm : m ∈ ms <;> simp [hm]
+
+/-- With per-record withdrawal the global marker is never set. -/
+theorem down_perRecord (v : Variant) (hv : v.perRecordWithdraw = true) (mc : Bool) (p : Prefix) (m : Mui)
+    (h : History) (s : Abs) : (h.foldl (specEv v mc p m) s).down = s.down := by
+  induction h generalizing s with
+  | nil => rfl
+  | cons e h ih =>
+    rw [List.foldl_cons, ih]
+    cases e with
+    | upd m' u => simp only [specEv]; by_cases hm : m' = m <;> simp [hm]
+    | down m' => simp only [specEv, specDown, hv]; by_cases hm : m' = m <;> simp [hm]
+    | downBulk ms => simp only [specEv, specDown, hv]; by_cases hm : m ∈ ms <;> simp [hm]
+
+/-- Already-withdrawn (or absent) reports are fixpoints. -/
+def Abs.settled (s : Abs) : Prop := s.entry.map setWithdrawn = s.entry
+
+theorem entry_specDown (v : Variant) (s : Abs) : (specDown v s).entry = s.entry.map setWithdrawn := by
+  unfold specDown Abs.entry
+  by_cases hv : v.perRecordWithdraw = true
+  · simp only [hv, if_true]
+    cases s.e with
+    | none => rfl
+    | some x => cases s.down <;> rfl
+  · simp only [hv, Bool.false_eq_true, if_false, if_true]
+    cases s.e with
+    | none => rfl
+    | some x => cases s.down <;> rfl
+
+/-- An event that does not announce the key leaves a settled report unchanged. -/
+theorem entry_specEv_settled (v : Variant) (mc : Bool) (p : Prefix) (m : Mui) (s : Abs) (e : Ev)
+    (hs : s.settled) (hna : e.announces mc p m = false) : (specEv v mc p m s e).entry = s.entry := by
+  cases e with
+  | down m' =>
+    simp only [specEv]
+    by_cases hm : m' = m
+    · simp only [hm, if_true, entry_specDown]; exact hs
+    · simp [hm]
+  | downBulk ms =>
+    simp only [specEv]
+    by_cases hm : m ∈ ms
+    · simp only [hm, if_true, entry_specDown]; exact hs
+    · simp [hm]
+  | upd m' u =>
+    simp only [specEv]
+    by_cases hm : m' = m
+    · simp only [hm, if_true]
+      cases u with
+      | malformed => rfl
+      | ok a ann wd =>
+        simp only [Ev.announces, hm, decide_true, Bool.true_and, List.contains_eq_mem, decide_eq_false_iff_not] at hna
+        unfold Abs.settled Abs.entry at hs
+        unfold Abs.entry
+        simp only [specUpd, hna, decide_false, Bool.false_eq_true, if_false]
+        by_cases hW : (⟨p, safiOf mc⟩ : Nlri) ∈ wd
+        · cases hv : v.overlapFix <;> simp only [hW, decide_true, if_true, Bool.false_eq_true, if_false] <;>
+            (cases he : s.e with
+             | none => rfl
+             | some x =>
+               cases hd : s.down
+               · simp only [he, hd, Option.map_some, Bool.false_eq_true, if_false, Option.some.injEq] at hs ⊢
+                 exact hs
+               · simp [setWithdrawn])
+        · cases hv : v.overlapFix <;> simp [hW]
+    · simp [hm]
+
+theorem settled_of_entry_eq {s t : Abs} (hs : s.settled) (h : t.entry = s.entry) : t.settled := by
+  unfold Abs.settled at *
+  rw [h]; exact hs
+
+theorem foldl_settled (v : Variant) (mc : Bool) (p : Prefix) (m : Mui) (h : History)
+    (hna : h.all (fun e => !(e.announces mc p m)) = true) (s : Abs) (hs : s.settled) :
+    (h.foldl (specEv v mc p m) s).entry = s.entry := by
+  induction h generalizing s with
+  | nil => rfl
+  | cons e h ih =>
+    simp only [List.all_cons, Bool.and_eq_true, Bool.not_eq_true'] at hna
+    have h1 := entry_specEv_settled v mc p m s e hs hna.1
+    rw [List.foldl_cons, ih hna.2 _ (settled_of_entry_eq hs h1), h1]
+
+theorem entry_run_append (v : Variant) (h1 h2 : History) (mc : Bool) (p : Prefix) (m : Mui) :
+    (run v (h1 ++ h2)).abs mc p m = h2.foldl (specEv v mc p m) ((run v h1).abs mc p m) := by
+  rw [abs_run, abs_run, specRun, specRun, List.foldl_append]
+
 end Rotonda.Rib
